@@ -883,10 +883,10 @@ SPEC = Property(
         Layer("cache-fixtures", run_cache, enumerate=enum_fixtures, exhaustive=True, space="every tests/fixtures/*.json entity map"),
         Layer("cache-roundtrip", run_cache, strategy=cache_cases, n={"quick": 800, "thorough": 20000}, min_nontrivial=50),
         Layer("ip-config-number-fixed", run_ip_config, enumerate=enum_ip_config, exhaustive=True, space="5 sequences of discovery updates with configuration numbers (database changing or not), with / without first contact"),
-        Layer("ip-config-number", run_ip_config, strategy=ip_config_cases, n={"quick": 150, "thorough": 3000}, min_nontrivial=20),
+        Layer("ip-config-number", run_ip_config, strategy=ip_config_cases, n={"quick": 300, "thorough": 3000}, min_nontrivial=20),
         Layer("ble-config-number-fixed", run_ble_config, enumerate=enum_ble_config, exhaustive=True,
               space="13 sequences of advertisements with rising configuration numbers (database unchanged / new range / new link / new value), restart after every step"),
-        Layer("ble-config-number", run_ble_config, strategy=ble_config_cases, n={"quick": 120, "thorough": 3000}, min_nontrivial=20),
+        Layer("ble-config-number", run_ble_config, strategy=ble_config_cases, n={"quick": 240, "thorough": 3000}, min_nontrivial=20),
         Layer("ble-state-number-fixed", run_ble_state, enumerate=enum_ble_state, exhaustive=True, space="4 state-number sequences incl. the 65535 -> 1 roll-over, restart after every advertisement"),
         Layer("ble-state-number", run_ble_state, strategy=ble_state_cases, n={"quick": 200, "thorough": 4000}, min_nontrivial=20),
         Layer("cache-corrupt", run_corrupt_cache, strategy=corrupt_cases, n={"quick": 48, "thorough": 800}, min_nontrivial=10),
